@@ -216,6 +216,30 @@ class Engine:
         w(f'TASK = {task!r}')
         w('')
         mine = [a for a in self.algs if a['t'] == task]
+        ign = self.desc.get('ignored')
+        if ign and self.style != 'legacy' and mine:
+            # a class the scanner is told to ignore, defined before every real
+            # element of the package: a complete template, or an abstract base
+            # whose constructor refuses to run
+            w('class A_ignored(dawgie.%s):' % BASE[mine[0]['k']])
+            w('    DAWGIE_IGNORE = True')
+            w('    def __init__(self):')
+            if ign == 'abstract':
+                w("        raise NotImplementedError('abstract base of this package')")
+            else:
+                w('        dawgie.%s.__init__(self)' % BASE[mine[0]['k']])
+                w('        self._version_ = dawgie.VERSION(1, 0, 0)')
+            w('    def name(self):')
+            w("        return 'ignoredtemplate'")
+            w('    def %s(self):' % DEPM[mine[0]['k']])
+            w('        return []')
+            w('    def feedback(self):')
+            w('        return []')
+            w('    def state_vectors(self):')
+            w('        return []')
+            w('    def run(self, *args, **kwds):')
+            w('        return None')
+            w('')
         for a in mine:
             an = ident(a['n'])
             for s in a['svs']:
